@@ -265,6 +265,68 @@ def rule_no_process_text(ctx: Ctx, repo: Repo) -> None:
     ctx.ok("R-C14.3", ST, "no id()/hash()/time/random/uuid/pid call in monkeytype/stubs.py")
 
 
+def rule_member_order_in_text(ctx: Ctx, repo: Repo) -> None:
+    """R-C14.1d: the order of a union's members is arbitrary (it comes from iterating a set of class objects, i.e. from
+    memory addresses / hash seeds).  The whole stub text - import block, generated classes, every annotation - is rendered by
+    interpretation for the same union in each member order; the two texts must be equal once the members of every
+    Union[...] / Optional[...] in them are sorted (names stripped in an order-dependent way, an import that appears only
+    for one order, a differently named generated class would all show)."""
+    from . import anno_model as AM, sig_model as SM, c11 as C11
+    from .codec_model import gen, anon_td, INT, STR, NONE_T
+    from .render_model import fkind
+    import itertools
+
+    def canon(text: str) -> str:
+        tree = ast.parse(text)
+
+        class Sorter(ast.NodeTransformer):
+            def visit_Subscript(self, node: ast.Subscript) -> ast.AST:
+                self.generic_visit(node)
+                if isinstance(node.value, ast.Name) and node.value.id == "Union" and isinstance(node.slice, ast.Tuple):
+                    node.slice.elts = sorted(node.slice.elts, key=ast.unparse)
+                return node
+        return ast.unparse(Sorter().visit(tree))
+
+    C = C11.C
+    groups = [
+        ("classes of a package and of its sub-package", [C("pkg", "mod"), C("pkg.other", "Thing")]),
+        ("classes of utils and my.utils", [C("utils", "A"), C("my.utils", "B")]),
+        ("classes of foo and barfoo and None", [C("foo", "Baz"), C("barfoo", "Qux"), NONE_T]),
+        ("own class, other class, int", [C(C11.MOD, "User"), C("pkg.other", "Thing"), INT]),
+        # (a Union never holds anonymous TypedDicts next to other members: shrink_types turns them into Dict[...] first)
+        ("containers of classes of two modules", [gen("List", C("utils", "A")), gen("Dict", STR, C("my.utils", "B")), C("pkg.other", "Outer.Deep")]),
+    ]
+    n = 0
+    for label, members in groups:
+        texts = {}
+        for perm in itertools.permutations(members):
+            typ = gen("Union", *perm)
+            k, res = AM.replace_typed_dicts(repo, typ, "foo")
+            if k != "return":
+                raise AnalysisError(f"ReplaceTypedDictsWithStubs raises on {label}")
+            rt, stubs = res.v
+            sig = SM.sig([SM.param("self"), SM.param("foo", rt)], rt)
+            status, txt, _ = AM.render_module(repo, C11.MOD, "C.meth", fkind("INSTANCE"), sig, stubs, None)
+            if status != "return":
+                raise AnalysisError(f"rendering {label} fails: {str(txt)[:120]}")
+            try:
+                texts[tuple(CM_show(x) for x in perm)] = canon(txt)
+            except SyntaxError:
+                texts[tuple(CM_show(x) for x in perm)] = txt  # reported by C11/C12; compared verbatim here
+            n += 1
+        distinct = sorted(set(texts.values()))
+        ctx.check(len(distinct) == 1, "R-C14.1d", "monkeytype.stubs.ModuleStub.render",
+                  "the stub text is the same for every order of a union's members, up to the order of the members themselves",
+                  construct=f"{label}: {len(distinct)} different stubs over {len(texts)} member orders" + ("" if len(distinct) == 1 else
+                            "; e.g. " + " <> ".join(next(l for l in d.splitlines() if "def meth" in l or "foo:" in l)[:110] for d in distinct[:2])))
+    ctx.floor("R-C14.1d", "stubs rendered for permuted union members", n, 20)
+
+
+def CM_show(x: Any) -> str:
+    from .codec_model import show
+    return show(x)[:40]
+
+
 def run(ctx: Ctx, repo: Repo, tier: str) -> None:
     ctx.trust("iteration order of a set is arbitrary: any permutation of insertion orders may occur", "sorted() is deterministic for distinct keys; equal keys keep input order (stable)")
     ctx.assume("merging of a set of types is order-independent (decided under C04, R-C04.4)")
@@ -273,6 +335,7 @@ def run(ctx: Ctx, repo: Repo, tier: str) -> None:
     ctx.attempt(rule_traces_to_sets, ctx, repo)
     ctx.attempt(rule_render_order, ctx, repo)
     ctx.attempt(rule_rewriters, ctx, repo)
+    ctx.attempt(rule_member_order_in_text, ctx, repo)
     # stage conditions of C14 decided in full elsewhere: the query returns each distinct row once, whatever the row order
     # (C09); generated TypedDict classes of different functions are never merged or dropped by name (C06)
     from . import c06 as _c06, c09 as _c09
